@@ -174,6 +174,10 @@ def gen_instance(rng, big=False, malformed=False, solvable=False):
         if solvable and v["kind"] in ("alg", "control"):
             lo, hi, kl, kh = None, None, "none", "none"
         v["lo"], v["hi"] = lo, hi
+        if v["kind"] == "extra" and any(isinstance(sd, dict) and "t" in sd and not (sd["t"][0] <= t0 <= sd["t"][-1])
+                                        for sd in (lo, hi)):
+            # finding C05-B (crash, see `probe_findings`): kept out of the main stream
+            v["mode"] = 0
         v["nokey"] = lo is None and hi is None and rng.random() < 0.5
         kinds[v["name"]] = (kl, kh)
     hist = []
@@ -689,6 +693,41 @@ def stream_solve(c, n):
 
 # ---------------------------------------------------------------------------------------------
 
+def probe_findings(c):
+    """dedicated probes of the two defects found while building this check (reported to the
+    coordinator as C05-A / C05-B); they print KNOWN-FINDING only once listed in known_findings.jsonl"""
+    base = dict(times=[0.0, 1.0, 2.0], E=1, theta=1.0, hist=[{}],
+                vars=[dict(name="x0", kind="state", size=1, times=[0.0, 1.0, 2.0], nom=1.0, lo=None, hi=None,
+                           mode=0, nokey=True)])
+    a = copy.deepcopy(base)
+    a["vars"].append(dict(name="ev0", kind="extra", size=3, times=[0.0], nom=1.0, mode=0, nokey=False, lo=None,
+                          hi={"t": [0.0], "v": [[1.0, 2.0, 3.0]]}))
+    r = run_real(a)
+    rep_a = None
+    if r[0] == "ok":
+        lay = S.recover_layout(r[1]["problem"], a, r[1]["N"])
+        got = r[1]["ubx"][lay[(0, "ev0")].ravel()].tolist()
+        rep_a = got != [1.0, 2.0, 3.0]
+    b = copy.deepcopy(base)
+    b["vars"].append(dict(name="ev0", kind="extra", size=1, times=[0.0], nom=1.0, mode=1, nokey=False,
+                          lo={"t": [0.5, 1.0], "v": [-2.0, -3.0]}, hi=None))
+    rb = run_real(b)
+    rep_b = rb[0] == "raise"
+    listed = {k["id"]: k for k in c.known}
+    for fid, rep, what in (
+        ("C05-A", rep_a, "one-row 2-D Timeseries bound of a vector extra variable: every component gets component 0's bound"),
+        ("C05-B", rep_b, "extra variable with a Timeseries bound not covering t0 and a piecewise-constant "
+                         "interpolation method: transcribe raises AttributeError"),
+    ):
+        ids = [i for i, k in listed.items() if i == fid or k.get("tmp_id") == fid]
+        c.hit("probe/%s/%s" % (fid, "reproduced" if rep else "not-reproduced"))
+        if ids:
+            c.known_probe(ids[0], bool(rep), what)
+        else:
+            c.notes.append("probe %s (%s): %s [not listed in known_findings.jsonl, reported to the coordinator]"
+                           % (fid, "reproduced" if rep else "not reproduced", what))
+
+
 CORPUS = [
     # F11 (fixed in 0f50280): 2-D Timeseries bound of a vector path variable
     dict(times=[0.0, 1.0, 2.0], E=1, theta=1.0,
@@ -746,6 +785,7 @@ def run(c):
                 c.hit("bound/" + kk)
         for hk in inst.get("_hist_kinds", {}).values():
             c.hit("hist/" + hk)
+    probe_findings(c)
     stream_interp(c, c.n(300, 4000))
     stream_solve(c, c.n(6, 40))
     c.notes.append("random streams are samples; the unbounded claim is carried by the theorems; the oracle "
